@@ -6,6 +6,6 @@ CONSTANTS
   DefectC18 = FALSE
   DefectC19 = FALSE
   AtomicWrite = TRUE
-  TmpTrunc = TRUE
+  TmpTrunc = FALSE
 INVARIANTS TypeOK ImplRefinesContract Idempotent StatusAfterEnable ContractIdempotent RoundTrip DisableKeepsOthers OldOrNew HistoryRefinesContract
 CHECK_DEADLOCK FALSE
